@@ -126,14 +126,41 @@ def fn_at(gen, n):
 
 
 def run_unit(unit, canaries=True, keep=None):
-    """Returns a result dict for one Verus unit."""
+    """Returns a result dict for one Verus unit. If Verus cannot resolve a name that is a `const` of a repo file the
+    unit extracts from, the constant is extracted too and the unit is run again (extraction closure, once)."""
+    res = _run_unit(unit, canaries, keep, extra=None)
+    if res['status'] == 'undecided' and res.get('other_errors'):
+        names = set()
+        for e in res['other_errors']:
+            m = re.search(r'cannot find value `([A-Za-z_][A-Za-z0-9_]*)` in this scope', e['kind'])
+            if m:
+                names.add(m.group(1))
+        extra = []
+        rels = sorted(set(f['rel'] for f in res.get('gen_functions', [])))
+        for n in sorted(names):
+            for rel in rels:
+                try:
+                    sf = G.SrcFile.get(rel)
+                    sf.find_item('const', n)
+                    extra.append((rel, 'const', n))
+                    break
+                except G.LostAnchor:
+                    continue
+        if extra:
+            res2 = _run_unit(unit, canaries, keep, extra=extra)
+            res2['auto_extracted'] = [f'{k} {n} from {rel}' for rel, k, n in extra]
+            return res2
+    return res
+
+
+def _run_unit(unit, canaries=True, keep=None, extra=None):
     t0 = time.time()
     res = dict(unit=unit, backend='verus', status='undecided', reason='', failures=[], functions=[],
                obligations=0, discharged=0, canaries=[], assumptions=[], rewrites=[], dropped={},
                clauses=[], smt_ms=0, wall_s=0.0, cmd='', infra_failures=[])
     upath = os.path.join(VERIF, 'units', unit, 'unit.vs')
     try:
-        gen = G.generate(upath, canaries=canaries)
+        gen = G.generate(upath, canaries=canaries, extra=extra)
     except G.LostAnchor as e:
         res['reason'] = f'lost-anchor: {e}'
         res['wall_s'] = time.time() - t0
@@ -155,6 +182,7 @@ def run_unit(unit, canaries=True, keep=None):
         res['reason'] = 'verus timeout'
         res['wall_s'] = time.time() - t0
         return res
+    res['gen_functions'] = gen.functions
     res['assumptions'] = scan_assumptions(gen)
     res['rewrites'] = sorted(set(f'{r} at /repo/{rel}:{ln}' for r, rel, ln in gen.rewrites))
     res['dropped'] = gen.dropped
